@@ -149,6 +149,10 @@ fixed("D26", ["C15"], "whitespace (or a comment) after `find all` with an empty 
       {"kind": "layout", "case": {"orig": "find all", "variant": "find all\n", "texts": ["ab"]}})
 fixed("D27", ["C04"], "skip 1 take 9223372036854775807 returned nothing instead of A[1:]: skip+take overflowed in the scan loop bound; first noticed by a seeding sub-agent reading the code, confirmed by the C04 check once amounts up to the largest integer were generated", "skip s take t with a huge t returned nothing",
       {"kind": "window", "case": {"prefix": "", "body": "'a'", "text": "aaa", "replace": False}})
+fixed("D28", ["C13", "C14"], "find all @/(a)\\1/ find all @/(b)\\1/ did not compile (identifier '_1' is not defined): groups are numbered program-wide and \\1 in the second literal meant the first literal's group; found when generated programs began to repeat a body with a regex literal in a second command", "numeric back-reference in a second regexp literal",
+      spans("find all @/(a)\\1/ find all @/(b)\\1/", "aa bb", [(0, 2, None), (3, 5, None)]))
+fixed("D28b", ["C14"], "two literals in one command: @/(a)/ ' ' @/(b)\\1/ matched 'a ba'", "numeric back-reference in a second regexp literal",
+      spans("find all @/(a)/ ' ' @/(b)\\1/", "a bb a ba", [(0, 4, None)]))
 known("K1", ["C09", "C11"], "division / modulo by zero in process code panics (no documented result; needs a language decision)",
       "integer divide by zero", crash("set f to transform return 1 / 0 end replace all 'a' with f", "a"))
 known("K2", ["C09", "C12"], "a variable that is boolean on one branch and a number on the other reaches SHOULDN'T GET HERE (the checker keeps the last assigned type)",
